@@ -262,6 +262,22 @@ def build_plain_subclass_dataclass(case, order, checker_name):
     return jaxtyped(typechecker=checker(checker_name))(Sub)
 
 
+def build_init_false_dataclass(case, order, checker_name, options=()):
+    """@dataclass(init=False, ...) with a hand-written, annotated __init__ (the usual reason for init=False); options in
+    {'frozen', 'slots', 'eq'} are passed on to dataclasses.dataclass."""
+    names = [case["params"][i]["name"] for i in order]
+    ns = {"__name__": "vf_generated", "dataclasses": dataclasses}
+    for i in order:
+        ns[f"A_{case['params'][i]['name']}"] = Shaped[np.ndarray, spec_of(case["params"][i])]
+    opts = "".join(f", {o}=True" for o in options)
+    body = "\n".join(f"    {n}: A_{n}" for n in names)
+    sig = ", ".join(f"{n}: A_{n}" for n in names)
+    assign = "\n".join(f"        object.__setattr__(self, {n!r}, {n})" for n in names)
+    src = f"@dataclasses.dataclass(init=False{opts})\nclass DInitFalse:\n{body}\n    def __init__(self, {sig}):\n{assign}\n"
+    exec(compile(src, "<vf-generated-dataclass>", "exec", dont_inherit=True), ns)
+    return jaxtyped(typechecker=checker(checker_name))(ns["DInitFalse"])
+
+
 def build_dataclass(case, order, checker_name, split=None):
     """split=k: a jaxtyped base dataclass with the first k fields and a jaxtyped subclass adding the rest."""
     cat = Shaped
